@@ -442,7 +442,7 @@ func childMain(batchFile string) int {
 			skipped++
 			continue
 		}
-		for len(ch.parked) > 24 {
+		for len(ch.parked) > 8 {
 			ch.finishOldest()
 		}
 		ch.runCase(d)
